@@ -38,8 +38,8 @@ func c06Big(c *core.Ctx, idx int) {
 		Fields: []schema.Field{{Name: "depot", Kind: schema.KStr, FK: "depots"}, {Name: "serial", Kind: schema.KStr}, {Name: "roles", Kind: schema.KList},
 			{Name: "labels", Kind: schema.KList, FK: "labels", Derived: true}},
 		Unique: []schema.UniqueDef{{Field: "serial", Nullable: false}}, SetIdx: []string{"roles"},
-		FKs:    []schema.FKDef{fk},
-		Links:  []schema.LinkDef{{Field: "labels", Target: "labels", TargetField: "crates"}}}
+		FKs:   []schema.FKDef{fk},
+		Links: []schema.LinkDef{{Field: "labels", Target: "labels", TargetField: "crates"}}}
 	sc := schema.Build([]*schema.StoreDef{depots, labels, crates})
 	path := c.TempFile("c06b")
 	db, err := sc.OpenDb(path)
